@@ -393,4 +393,6 @@ RULES = [
     ("C09.R3", "GT normalisation (sorted) precedes the setter for both tags", r3),
     ("C09.R4", "phased blocks -> complementary pseudo reads", r4),
 ]
-FLOORS = {"C09.R1": 15, "C09.R2": 8, "C09.R3": 2, "C09.R4": 8}
+# instance floors: about 60% of the instances confirmed by hand on the reference tree -- a rule that suddenly matches far fewer
+# sites fails the run (exit 2); a clean-up that merges two sites into one does not
+FLOORS = {"C09.R1": 9, "C09.R2": 4, "C09.R3": 1, "C09.R4": 4}
